@@ -12,3 +12,12 @@ check("C01", "exploration", "probability-weighted exhaustive exploration of all 
       "For lattice proposals/targets the unnormalised Feynman-Kac identity E[Zhat*mean f(x_final)] = h*sum L*pi*J*f holds exactly for every N; the explorer enumerates every proposal draw, resampling index tuple and kernel proposal/accept outcome of the real Aspire.sample_posterior (importance, smc, emcee_smc x none/default/logit/probit/periodic preconditioning x 1-3 fixed temperature steps x n_final_samples x namespaces), sums path probabilities (must be 1) and compares the exact expectation with the closed form for f = 1, x, x^2.",
       "Stub lattice Metropolis kernel stands in for minipcn/emcee; adaptive schedules, affine whitening and flow preconditioning are population-dependent (finite-N identity is not a theorem) and are covered by the one-step checks C05/C07/C08/C09/C10; N=2, K<=3, T<=3.",
       "DESIGN.md 4/C01")
+
+check("C06", "exploration", "deviation-bounded exhaustive exploration of the real SMC loop under a controlled environment (population menu + resampling outcomes) over a schedule-option grid",
+      "The real MiniPCNSMC/EmceeSMC.sample loop runs to completion for every environment behaviour with <=2 (quick) / <=3 (thorough) deviations (which population the kernel returns after each iteration, which indices resampling draws) for every schedule-option configuration (sweeps + pairwise cover; full product in thorough; fixed n up to 64/300); every execution is checked for strictly increasing temperatures in (0,1], exact termination at 1 or at max_n_steps, exactly n iterations for fixed n, min_step honoured, no exception, and a 64-invocation horizon (spinning).",
+      "Teleport kernel stub; environment deviates only in the first 4 iterations and 3 resamplings; population menu of 5 log-weight spreads (0..1e9); N in {2,4}.",
+      "DESIGN.md 4/C06")
+check("C08", "exploration", "complete-tree exploration (all resampling tuples x environment populations) of the real SMC loop with extended-precision recomputation and paired differential runs",
+      "For N=2 the complete choice tree (N=3: <=2/3 deviations) of the real loop is executed; every per-step log ratio and delta-method variance is recomputed with mpmath from the population stored before that step and the temperatures actually used, the returned log-evidence must be their sum and the error the root of the summed variances; each execution is re-run with identical choices plus n_final_samples / a checkpoint callback (cadence 1, 2) and must return bit-identical evidence.",
+      "Teleport kernel stub; log-weight spreads {0,3,1e3}; <=3 iterations enumerated.",
+      "DESIGN.md 4/C08")
